@@ -1,5 +1,6 @@
 import RsyncModel.Walk
 import RsyncModel.Utf8
+import RsyncModel.Filter
 /-! `deleteFiles` (receiver/do.go:25-67) and `findInFileList` (receiver/flist.go:24-29): the guard
 conditions, the binary search over the name-sorted list, and the walk of `Walk.delWalk`. -/
 namespace Delete
@@ -49,6 +50,80 @@ decreasing_by
   · have := (List.dropWhile_sublist (l := rest) (fun x => under e.path x.path)).length_le
     simp; omega
 
+/-- the walk with the protection of excluded entries (receiver/do.go after the D9 repair): an entry
+that is not in the list but that the user's rules exclude is left alone — a protected directory
+with everything below it -/
+def delWalkP (listed : Path → Bool) (protect : Path → Bool → Bool) : List Ent → List Path
+  | [] => []
+  | e :: rest =>
+    if listed e.path then delWalkP listed protect rest
+    else if protect e.path e.isDir then
+      if e.isDir then delWalkP listed protect (rest.dropWhile (fun x => under e.path x.path))
+      else delWalkP listed protect rest
+    else e.path :: delWalkP listed protect (rest.dropWhile (fun x => under e.path x.path))
+termination_by l => l.length
+decreasing_by
+  · simp
+  · have := (List.dropWhile_sublist (l := rest) (fun x => under e.path x.path)).length_le
+    simp; omega
+  · simp
+  · have := (List.dropWhile_sublist (l := rest) (fun x => under e.path x.path)).length_le
+    simp; omega
+
+/-- the same as the code runs it (UTF-8 restriction on kept directories it descends into) -/
+def delWalkPV (listed : Path → Bool) (protect : Path → Bool → Bool) : List Ent → List Path × Bool
+  | [] => ([], false)
+  | e :: rest =>
+    if listed e.path then
+      if e.isDir && !Utf8.valid (joined e.path) then ([], true)
+      else delWalkPV listed protect rest
+    else if protect e.path e.isDir then
+      if e.isDir then delWalkPV listed protect (rest.dropWhile (fun x => under e.path x.path))
+      else delWalkPV listed protect rest
+    else
+      let r := delWalkPV listed protect (rest.dropWhile (fun x => under e.path x.path))
+      (e.path :: r.1, r.2)
+termination_by l => l.length
+decreasing_by
+  · simp
+  · have := (List.dropWhile_sublist (l := rest) (fun x => under e.path x.path)).length_le
+    simp; omega
+  · simp
+  · have := (List.dropWhile_sublist (l := rest) (fun x => under e.path x.path)).length_le
+    simp; omega
+
+/-- without rules the protected walk is the plain walk -/
+theorem delWalkP_noRules (listed : Path → Bool) (l : List Ent) :
+    delWalkP listed (fun _ _ => false) l = delWalk listed l := by
+  induction l using delWalk.induct listed with
+  | case1 => simp [delWalkP, delWalk]
+  | case2 e rest hl ih => rw [delWalkP, delWalk, if_pos hl, if_pos hl]; exact ih
+  | case3 e rest hl ih => rw [delWalkP, delWalk, if_neg hl, if_neg hl]; simp [ih]
+
+/-- nothing listed and nothing protected is ever removed -/
+theorem delWalkP_sound (listed : Path → Bool) (protect : Path → Bool → Bool) (l : List Ent) :
+    ∀ p ∈ delWalkP listed protect l, listed p = false ∧ ∃ e ∈ l, e.path = p ∧ protect p e.isDir = false := by
+  induction l using delWalkP.induct listed protect with
+  | case1 => simp [delWalkP]
+  | case2 e rest hl ih =>
+    rw [delWalkP, if_pos hl]; intro p hp
+    obtain ⟨a, e', he', h⟩ := ih p hp
+    exact ⟨a, e', List.mem_cons_of_mem _ he', h⟩
+  | case3 e rest hl hp hd ih =>
+    rw [delWalkP, if_neg hl, if_pos hp, if_pos hd]; intro p hpm
+    obtain ⟨a, e', he', h⟩ := ih p hpm
+    exact ⟨a, e', List.mem_cons_of_mem _ (List.dropWhile_subset _ he'), h⟩
+  | case4 e rest hl hp hd ih =>
+    rw [delWalkP, if_neg hl, if_pos hp, if_neg hd]; intro p hpm
+    obtain ⟨a, e', he', h⟩ := ih p hpm
+    exact ⟨a, e', List.mem_cons_of_mem _ he', h⟩
+  | case5 e rest hl hp ih =>
+    rw [delWalkP, if_neg hl, if_neg hp]; intro p hpm
+    rcases List.mem_cons.mp hpm with rfl | hpm
+    · exact ⟨by simpa using hl, e, List.mem_cons_self, rfl, by simpa using hp⟩
+    · obtain ⟨a, e', he', h⟩ := ih p hpm
+      exact ⟨a, e', List.mem_cons_of_mem _ (List.dropWhile_subset _ he'), h⟩
+
 /-- on trees whose kept directories have valid UTF-8 names the real walk is the ideal one -/
 theorem delWalkV_eq (listed : Path → Bool) (l : List Ent)
     (h : ∀ e ∈ l, e.isDir = true → Utf8.valid (joined e.path) = true) :
@@ -76,13 +151,14 @@ def deleteFiles (ioErrors : Nat) (dryRun : Bool) (names : List Str) (tree : List
   else if dryRun then []
   else delWalk (fun p => findInFileList names (joined p)) tree
 
-/-- the same with the UTF-8 restriction of the real walk: removed roots and `true` when it aborts with an error -/
-def deleteFilesV (ioErrors : Nat) (dryRun : Bool) (names : List Str) (tree : List Ent) : List Path × Bool :=
+/-- the same with the UTF-8 restriction of the real walk and the protection by the user's rules:
+removed roots and `true` when it aborts with an error -/
+def deleteFilesV (ioErrors : Nat) (dryRun : Bool) (names : List Str) (rules : List Filter.Rule) (tree : List Ent) : List Path × Bool :=
   if ioErrors > 0 then ([], false)
   else if !(names.contains [46]) then ([], false)
   else if dryRun then
-    -- the dry-run walk still descends (and aborts the same way) but removes nothing
-    ([], (delWalkV (fun _ => true) tree).2)
-  else delWalkV (fun p => findInFileList names (joined p)) tree
+    -- the dry-run walk still descends into what it would delete (and aborts the same way) but removes nothing
+    ([], (delWalkPV (fun _ => true) (fun _ _ => false) tree).2)
+  else delWalkPV (fun p => findInFileList names (joined p)) (fun p d => Filter.excluded rules (joined p) d) tree
 
 end Delete
